@@ -21,7 +21,7 @@ def describe(t):
 def run(ctx):
     ctx.cov["bounds"] = {"grid": "z, w in (1/4)Z[i], |z|,|w| <= 2 (197 x 197 points)", "candidate roots": "s = k/16, k = 0..128",
                          "dt": "2^-10..2^3", "u": [1.0, 5.79], "gamma": [0.0] + pu.GAMMAS, "epsilon": [-1.0, 0.0, 0.5, 1.0],
-                         "mu*dt": pu.MU_PHASES, "tiny |psi|": pu.TINY, "residual tolerance": pu.TOL * pu.QUANTUM}
+                         "mu*dt": pu.MU_PHASES, "tiny |psi|": pu.TINY, "near-tangent |D|/(2c+1)^2": pu.NEAR_SIZES, "residual tolerance": pu.TOL * pu.QUANTUM}
     # 1. the design: lemmas of PsiUpdate at every grid point
     ctx.model_check("PsiUpdate", pu.model_cfg(pu.LEMMAS), name="PsiUpdate[lemmas]", required_actions=["PickZ", "PickW"])
     for inv in ("NoNone", "NoTangent", "NoTwoIrrational"):     # every class occurs on the grid (sharpness of the universe)
@@ -37,6 +37,7 @@ def run(ctx):
     ctx.cov["grid_classes"] = classes
     plans = pu.plan_vectors(points, ctx.seed, ctx.quick)
     tiny = pu.tiny_plans(ctx.seed, ctx.quick)
+    near = pu.near_plans(points, ctx.seed, ctx.quick)
     ordinary = ([p for p in points if p["cls"] == "two" and p["r"] >= 0][:300] + [p for p in points if p["cls"] == "z0"][::4]
                 + [p for p in points if p["cls"] == "w0"][::8])
     ctx.cov["exhaustive"] = not ctx.quick
@@ -44,15 +45,29 @@ def run(ctx):
     jobs = []
     for c in range(nchunk):
         jobs.append(("call", dict(module="harness.psiupdate", func="run_batch",
-                                  args=dict(plans=plans[c::nchunk], tiny=(tiny if c == 0 else []), ordinary=ordinary))))
+                                  args=dict(plans=plans[c::nchunk], tiny=(tiny if c == 0 else []), near=near[c::nchunk], ordinary=ordinary))))
     traces = [t for chunk in rf.replay_all(ctx, jobs) for t in chunk]
     worst = max((t.get("realisation_error", 0.0) for t in traces), default=0.0)
     ctx.cov["worst_realisation_error"] = worst
     if worst > 1e-11:
         raise core.MachineryFailure(f"C02: concretisation does not realise the grid point (documented z, w off by {worst:.2e})")
     for t in traces:
-        kinds = {e["kind"] for e in t["ev"]}
         ctx.note_case(describe(t), nontrivial=len(t["ev"]) >= 1)
+    # near-tangent family: how many sites have a determined class (exact |D|/(2c+1)^2 >= 100 x the rounding bound of the float evaluation)
+    nt = {}
+    for t in traces:
+        if t["family"].startswith("near-tangent"):
+            d = nt.setdefault(t["family"].split("/")[1], {"calls": 0, "determined": 0, "refused": 0, "min_margin": None})
+            d["calls"] += 1
+            d["determined"] += t["near"]["determined"]
+            d["refused"] += t["refused"]
+            if t["near"]["determined"]:
+                m = abs(t["near"]["ratio"]) / t["near"]["bound"]
+                d["min_margin"] = m if d["min_margin"] is None else min(d["min_margin"], m)
+    ctx.cov["near_tangent"] = nt
+    for size in ("+1e-09", "-1e-09", "+1e-10", "-1e-10"):
+        if nt.get(size, {}).get("determined", 0) < 10:
+            raise core.MachineryFailure(f"C02: near-tangent family {size}: fewer than 10 sites with a determined class ({nt.get(size)})")
     # 3. code -> spec
     norm = [pu.to_tlc(t) for t in traces]
     accepted = set()
@@ -83,7 +98,7 @@ def run(ctx):
         for n in rejected:
             t = traces[n]
             cl = ",".join(clauses.get(n, ["?"]))
-            fam = "tiny" if t["family"].startswith("tiny") else t["family"]
+            fam = "tiny" if t["family"].startswith("tiny") else ("near-tangent" if t["family"].startswith("near-tangent") else t["family"])
             groups.setdefault((cl, fam), []).append(n)
         for (cl, fam), ns in sorted(groups.items()):
             ex = [traces[n] for n in ns[:12]]
@@ -109,6 +124,13 @@ def run(ctx):
         b = copy.deepcopy(norm[cands[0]]); b["ev"][0]["br"] = False; bad.append(b)                # other branch
         b = copy.deepcopy(norm[cands[0]]); b["refused"] = True; bad.append(b)                     # refused although solvable
         b = copy.deepcopy(norm[refd[0]]); b["refused"] = False; bad.append(b)                     # answered although unsolvable
+        nn = [n for n in sorted(accepted) if traces[n]["refused"] and any(e["kind"] == "near" and not e["dpos"] for e in norm[n]["ev"])]
+        npos = [n for n in sorted(accepted) if not traces[n]["refused"] and any(e["kind"] == "near" and e["dpos"] for e in norm[n]["ev"])]
+        if nn and npos:
+            b = copy.deepcopy(norm[nn[0]]); b["refused"] = False; bad.append(b)                   # D = -1e-9 (2c+1)^2 answered
+            b = copy.deepcopy(norm[npos[0]]); b["refused"] = True; bad.append(b)                  # D = +1e-9 (2c+1)^2 refused
+        elif not ctx.violations:
+            raise core.MachineryFailure("C02: no accepted near-tangent trace of either sign")
         rat = [n for n in cands if any(e["kind"] == "grid" and e["sq"] > 10 for e in norm[n]["ev"])]
         acc, _ = ctx.validate_traces("PsiUpdateTrace", bad, pu.trace_cfg(True), name="canary[C02]", count=False)
         if acc:
@@ -117,6 +139,8 @@ def run(ctx):
     ctx.cov["rule"] = ("one case = one call of the real solve_for_psi_squared on a multi-site vector whose sites realise grid points emitted by "
                        "TLC (classes z=0 via gamma=0 or psi=0, w=0, tangent, two roots, no root) or tiny magnitudes; distinct = distinct "
                        "(parameters, site list); quick samples the grid (boundary of solvability first), thorough uses every grid point")
+    ctx.assume("near-tangent sites: the class is the exact sign of the discriminant of the documented z, w of the realised float inputs (exact rational "
+               "arithmetic); it is used only where |D|/(2c+1)^2 >= 100 x the a-priori rounding bound u (24 M/|w| + 10) of the float evaluation, else the verdict is left free")
     ctx.assume("grid points on the tangent D = 0 are realised only to rounding (1e-16): their refusal verdict is left free, the answer (if any) must satisfy Accept")
     ctx.assume("exp(-i mu dt) is taken from cmath when the documented z, w of the realised inputs are recomputed exactly (relative error 2e-16)")
     ctx.assume("the extension of SmallProductSolvable / DiscriminantDecides from the grid to all complex z, w is the two-line algebraic argument in PsiUpdate.tla; TLC checks it on the grid")
